@@ -2,34 +2,566 @@
 
 package simrt
 
-import "unsafe"
+import (
+	"fmt"
+	"reflect"
+	"sync"
+	"unsafe"
+)
 
-// S2 placeholder; the baton scheduler and the vector-clock race detector are
-// filled in by threads.go once the concurrency properties are built.
-
-type threads struct{}
-type simThread struct{}
+// ---------------------------------------------------------------------------
+// S2: simulated caller threads.
+//
+// A simulated thread is a real goroutine that runs only while it holds the
+// baton. Woven yield points (function entry, loop iteration, every access to
+// memory that can be shared, party entry/exit, lock operations) call yield();
+// there the schedule PRNG (or the replayed trace) decides whether the baton
+// goes to another runnable thread. Exactly one goroutine runs at any time, so
+// an execution is a pure function of the decisions.
+//
+// Because the hand-off is itself channel synchronisation, Go's race detector
+// would see nothing; the simulator carries its own happens-before detector
+// over the woven accesses (vector clocks, last write epoch + per-thread read
+// clocks per 8-byte word and per map).
+// ---------------------------------------------------------------------------
 
 const (
 	yEnter = iota
 	yTick
 	yAccess
 	yParty
+	yLock
 )
 
-func (s *Sim) yield(site int32, kind int) {}
+// Preemption modes.
+const (
+	PreemptRandom   = iota // switch with probability SwitchNum/SwitchDen at every yield point
+	PreemptNone            // run each thread to completion (sequential baseline)
+	PreemptAccess          // random, and always consider a switch at shared accesses
+	PreemptTargeted        // switch exactly at the TargetNth-th..(+TargetCount) visit of yield sites of kind access/party
+)
 
-func Yield(site int32)                                             {}
-func W(p unsafe.Pointer, size uintptr, site int32)                 {}
-func R(p unsafe.Pointer, size uintptr, site int32)                 {}
-func RP(p unsafe.Pointer, size uintptr, site int32) unsafe.Pointer { return p }
-func WM(m interface{}, site int32)                                 {}
-func RM(m interface{}, site int32)                                 {}
+type simThread struct {
+	id   int
+	wake chan struct{}
+	done bool
+	vc   []uint64
+	th   *Thread
+}
 
-// RunThreads runs the bodies as simulated caller threads (placeholder:
-// sequentially, until the S2 scheduler is in place).
-func (s *Sim) RunThreads(bodies []func()) {
-	for _, b := range bodies {
-		b()
+type backMsg struct {
+	id    int
+	done  bool
+	panic interface{}
+}
+
+type cell struct {
+	keep  interface{} // keeps the object alive so its address is not reused
+	wT    int         // last writer thread (-1 none)
+	wC    uint64
+	wSite int32
+	rC    []uint64 // per thread: clock of its last read (0 none)
+	rSite []int32
+}
+
+// Race is one unordered conflicting pair of woven accesses.
+type Race struct {
+	Kind    string // "write-write" | "read-write" | "write-read" | "map ..."
+	SiteA   int32  // earlier access
+	SiteB   int32  // later access
+	ThreadA int
+	ThreadB int
+	What    string
+}
+
+type threads struct {
+	ts        []*simThread
+	back      chan backMsg
+	cur       int
+	live      int
+	Mode      int
+	SwitchNum int
+	SwitchDen int
+	targetAt  uint64 // PreemptTargeted: switch when the access/party yield counter reaches this
+	targetCnt uint64
+	ycount    uint64 // yield points passed (all kinds)
+	acount    uint64 // access/party yield points passed
+	shadow    map[uintptr]*cell
+	maps      map[uintptr]*cell
+	locks     map[uintptr][]uint64
+	onces     map[uintptr]*onceState
+	Races     []Race
+	raceKeys  map[[2]int32]bool
+}
+
+type onceState struct {
+	done    bool
+	running bool
+	rel     []uint64
+}
+
+// ThreadCfg configures S2 for a run.
+type ThreadCfg struct {
+	Mode      int
+	SwitchNum int
+	SwitchDen int
+	TargetAt  uint64
+	TargetCnt uint64
+}
+
+// SwarmThreadCfg draws a thread-scheduling configuration from the sim's seed.
+func (s *Sim) SwarmThreadCfg() ThreadCfg {
+	r := NewRNG(Mix(s.seed0, 3, "threadcfg"))
+	c := ThreadCfg{SwitchDen: 1000}
+	switch x := r.Intn(10); {
+	case x < 4:
+		c.Mode = PreemptRandom
+		c.SwitchNum = []int{1, 3, 10, 30, 100}[r.Intn(5)]
+	case x < 5:
+		c.Mode = PreemptNone
+	case x < 7:
+		c.Mode = PreemptAccess
+		c.SwitchNum = []int{100, 300, 600}[r.Intn(3)]
+	default:
+		c.Mode = PreemptTargeted
+		c.TargetAt = uint64(1 + r.Intn(400))
+		c.TargetCnt = uint64(1 + r.Intn(2))
 	}
+	return c
+}
+
+// Races returns the data races detected so far.
+func (s *Sim) Races() []Race {
+	if s.thr == nil {
+		return nil
+	}
+	return s.thr.Races
+}
+
+// RunThreads runs the bodies as simulated caller threads until all finish.
+// It must be called from the goroutine that owns the simulation.
+func (s *Sim) RunThreads(bodies []func(), cfg ThreadCfg) {
+	n := len(bodies)
+	t := &threads{back: make(chan backMsg), Mode: cfg.Mode, SwitchNum: cfg.SwitchNum, SwitchDen: cfg.SwitchDen,
+		targetAt: cfg.TargetAt, targetCnt: cfg.TargetCnt,
+		shadow: map[uintptr]*cell{}, maps: map[uintptr]*cell{}, locks: map[uintptr][]uint64{}, onces: map[uintptr]*onceState{}, raceKeys: map[[2]int32]bool{}}
+	if t.SwitchDen == 0 {
+		t.SwitchDen = 1000
+	}
+	// thread 0 is the main (harness) thread: everything it did so far happens
+	// before every simulated thread starts.
+	mainVC := make([]uint64, n+1)
+	mainVC[0] = 1
+	for i := 0; i < n; i++ {
+		st := &simThread{id: i + 1, wake: make(chan struct{}), vc: append([]uint64(nil), mainVC...), th: &Thread{ID: i + 1}}
+		st.vc[st.id] = 1
+		st.th.t = st
+		t.ts = append(t.ts, st)
+	}
+	t.live = n
+	s.thr = t
+	main := s.cur
+	for i, b := range bodies {
+		st, body := t.ts[i], b
+		go func() {
+			<-st.wake
+			defer func() {
+				st.done = true
+				if r := recover(); r != nil {
+					t.back <- backMsg{id: st.id, done: true, panic: r}
+					return
+				}
+				t.back <- backMsg{id: st.id, done: true}
+			}()
+			body()
+		}()
+	}
+	var failure interface{}
+	next := s.pickThread(-1)
+	for t.live > 0 {
+		st := t.ts[next]
+		s.cur = st.th
+		t.cur = next
+		st.wake <- struct{}{}
+		msg := <-t.back
+		if msg.done {
+			t.live--
+			if msg.panic != nil && failure == nil {
+				failure = msg.panic
+			}
+		}
+		if t.live > 0 {
+			next = s.pickThread(t.cur)
+		}
+	}
+	// join: everything the threads did happens before what main does next
+	for _, st := range t.ts {
+		for i := range mainVC {
+			if st.vc[i] > mainVC[i] {
+				mainVC[i] = st.vc[i]
+			}
+		}
+	}
+	s.cur = main
+	s.thr.ts = nil
+	if failure != nil {
+		panic(failure)
+	}
+}
+
+// pickThread chooses the next runnable thread (index into ts). from is the
+// index of the thread that just yielded (-1 at start).
+func (s *Sim) pickThread(from int) int {
+	t := s.thr
+	var runnable []int
+	for i, st := range t.ts {
+		if !st.done {
+			runnable = append(runnable, i)
+		}
+	}
+	if len(runnable) == 0 {
+		return -1
+	}
+	if len(runnable) == 1 {
+		return runnable[0]
+	}
+	k := s.Intn(len(runnable), -100)
+	if from >= 0 && runnable[k] != from {
+		s.Switches++
+	}
+	return runnable[k]
+}
+
+// yield is called at every woven yield point while threads are running.
+func (s *Sim) yield(site int32, kind int) {
+	t := s.thr
+	if t == nil || t.ts == nil || t.live <= 1 || s.cur.t == nil {
+		return
+	}
+	t.ycount++
+	if kind == yAccess || kind == yParty || kind == yLock {
+		t.acount++
+	}
+	sw := false
+	if s.replaying {
+		// a switch is recorded as ("S", site, ycount)
+		if !s.lenientOff && s.rpos < len(s.replay) {
+			ev := s.replay[s.rpos]
+			if ev.K == "S" && uint64(ev.N) == t.ycount {
+				if ev.S != site && !s.Lenient {
+					panic(&Infra{fmt.Sprintf("replay divergence: switch at yield %d recorded at site %d, run is at site %d", t.ycount, ev.S, site)})
+				}
+				s.rpos++
+				sw = true
+			}
+		}
+	} else {
+		switch t.Mode {
+		case PreemptNone:
+		case PreemptRandom:
+			sw = s.rng.Intn(t.SwitchDen) < t.SwitchNum
+		case PreemptAccess:
+			if kind == yAccess || kind == yParty {
+				sw = s.rng.Intn(t.SwitchDen) < t.SwitchNum
+			}
+		case PreemptTargeted:
+			if (kind == yAccess || kind == yParty) && t.acount >= t.targetAt && t.acount < t.targetAt+t.targetCnt {
+				sw = true
+			}
+		}
+		if kind == yLock {
+			sw = true // a blocked lock must let the holder run
+		}
+	}
+	if !sw {
+		return
+	}
+	if s.Record {
+		s.Trace = append(s.Trace, Ev{K: "S", S: site, N: int(t.ycount), V: []int{kind}})
+	}
+	s.Event("S", uint64(uint32(site)), t.ycount)
+	me := s.cur.t
+	t.back <- backMsg{id: me.id}
+	<-me.wake
+}
+
+// Yield is an explicit yield point (party entry/exit).
+func Yield(site int32) {
+	if s := S; s != nil && s.thr != nil {
+		s.yield(site, yParty)
+	}
+}
+
+func (t *threads) report(kind string, a, b int32, ta, tb int, what string) {
+	k := [2]int32{a, b}
+	if t.raceKeys[k] {
+		return
+	}
+	t.raceKeys[k] = true
+	t.Races = append(t.Races, Race{Kind: kind, SiteA: a, SiteB: b, ThreadA: ta, ThreadB: tb, What: what})
+}
+
+func (t *threads) cellFor(m map[uintptr]*cell, key uintptr, p interface{}) *cell {
+	c := m[key]
+	if c == nil {
+		n := len(t.ts) + 1
+		c = &cell{keep: p, wT: -1, rC: make([]uint64, n), rSite: make([]int32, n)}
+		m[key] = c
+	}
+	return c
+}
+
+func (s *Sim) curVC() (int, []uint64) {
+	if s.cur.t != nil {
+		return s.cur.t.id, s.cur.t.vc
+	}
+	return 0, nil
+}
+
+func (s *Sim) accessCell(c *cell, write bool, site int32, what string) {
+	t := s.thr
+	tid, vc := s.curVC()
+	if vc == nil {
+		return
+	}
+	if c.wT >= 0 && c.wT != tid && c.wC > vc[c.wT] {
+		if write {
+			t.report("write-write", c.wSite, site, c.wT, tid, what)
+		} else {
+			t.report("write-read", c.wSite, site, c.wT, tid, what)
+		}
+	}
+	if write {
+		for u, rc := range c.rC {
+			if u != tid && rc != 0 && rc > vc[u] {
+				t.report("read-write", c.rSite[u], site, u, tid, what)
+			}
+		}
+		c.wT, c.wC, c.wSite = tid, vc[tid], site
+		for u := range c.rC {
+			c.rC[u] = 0
+		}
+	} else {
+		c.rC[tid], c.rSite[tid] = vc[tid], site
+	}
+}
+
+func (s *Sim) access(p unsafe.Pointer, size uintptr, write bool, site int32) {
+	if s.thr == nil || s.thr.ts == nil {
+		return
+	}
+	s.yield(site, yAccess)
+	if size == 0 {
+		size = 1
+	}
+	lo := uintptr(p) &^ 7
+	hi := (uintptr(p) + size + 7) &^ 7
+	for a := lo; a < hi; a += 8 {
+		c := s.thr.cellFor(s.thr.shadow, a, p)
+		s.accessCell(c, write, site, "memory")
+	}
+}
+
+// W records a write of size bytes at p (woven before the writing statement).
+func W(p unsafe.Pointer, size uintptr, site int32) {
+	if s := S; s != nil {
+		s.access(p, size, true, site)
+	}
+}
+
+// R records a read.
+func R(p unsafe.Pointer, size uintptr, site int32) {
+	if s := S; s != nil {
+		s.access(p, size, false, site)
+	}
+}
+
+// RP records a read and returns p (woven around rvalue expressions).
+func RP(p unsafe.Pointer, size uintptr, site int32) unsafe.Pointer {
+	if s := S; s != nil {
+		s.access(p, size, false, site)
+	}
+	return p
+}
+
+func (s *Sim) mapAccess(m interface{}, write bool, site int32) {
+	if s.thr == nil || s.thr.ts == nil {
+		return
+	}
+	rv := reflect.ValueOf(m)
+	if !rv.IsValid() || rv.Kind() != reflect.Map || rv.IsNil() {
+		return
+	}
+	s.yield(site, yAccess)
+	key := rv.Pointer()
+	c := s.thr.cellFor(s.thr.maps, key, m)
+	s.accessCell(c, write, site, "map "+rv.Type().String())
+}
+
+// WM records a write (insert, update, delete) to map m.
+func WM(m interface{}, site int32) {
+	if s := S; s != nil {
+		s.mapAccess(m, true, site)
+	}
+}
+
+// RM records a read of map m and returns it.
+func RM(m interface{}, site int32) interface{} {
+	if s := S; s != nil {
+		s.mapAccess(m, false, site)
+	}
+	return m
+}
+
+// ---- W4: synchronisation routed through the simulator ----
+
+func join(dst, src []uint64) {
+	for i := range src {
+		if i < len(dst) && src[i] > dst[i] {
+			dst[i] = src[i]
+		}
+	}
+}
+
+func (s *Sim) acquire(key uintptr) {
+	tid, vc := s.curVC()
+	if vc == nil {
+		return
+	}
+	if rel := s.thr.locks[key]; rel != nil {
+		join(vc, rel)
+	}
+	_ = tid
+}
+
+func (s *Sim) release(key uintptr) {
+	tid, vc := s.curVC()
+	if vc == nil {
+		return
+	}
+	s.thr.locks[key] = append([]uint64(nil), vc...)
+	vc[tid]++
+}
+
+type tryLocker interface {
+	TryLock() bool
+	Lock()
+	Unlock()
+}
+
+// MuLock replaces mu.Lock(): a blocked thread yields instead of blocking the
+// only running goroutine.
+func MuLock(mu tryLocker, site int32) {
+	s := S
+	if s == nil || s.thr == nil || s.thr.ts == nil {
+		mu.Lock()
+		return
+	}
+	for spins := 0; !mu.TryLock(); spins++ {
+		if spins > 100000 {
+			panic(&Infra{"simulated lock never released (deadlock in woven code?)"})
+		}
+		s.yield(site, yLock)
+	}
+	s.acquire(reflect.ValueOf(mu).Pointer())
+}
+
+// MuUnlock replaces mu.Unlock().
+func MuUnlock(mu tryLocker, site int32) {
+	s := S
+	if s != nil && s.thr != nil && s.thr.ts != nil {
+		s.release(reflect.ValueOf(mu).Pointer())
+	}
+	mu.Unlock()
+}
+
+type tryRLocker interface {
+	TryRLock() bool
+	RLock()
+	RUnlock()
+}
+
+// MuRLock / MuRUnlock: readers are treated like writers for happens-before
+// (conservative: never reports a race the program does not have; may miss
+// none, since reader-reader pairs never conflict).
+func MuRLock(mu tryRLocker, site int32) {
+	s := S
+	if s == nil || s.thr == nil || s.thr.ts == nil {
+		mu.RLock()
+		return
+	}
+	for spins := 0; !mu.TryRLock(); spins++ {
+		if spins > 100000 {
+			panic(&Infra{"simulated read lock never released"})
+		}
+		s.yield(site, yLock)
+	}
+	s.acquire(reflect.ValueOf(mu).Pointer())
+}
+
+func MuRUnlock(mu tryRLocker, site int32) {
+	s := S
+	if s != nil && s.thr != nil && s.thr.ts != nil {
+		s.release(reflect.ValueOf(mu).Pointer())
+	}
+	mu.RUnlock()
+}
+
+// OnceDo replaces once.Do(f).
+func OnceDo(o *sync.Once, f func(), site int32) {
+	s := S
+	if s == nil || s.thr == nil || s.thr.ts == nil {
+		o.Do(f)
+		return
+	}
+	key := uintptr(unsafe.Pointer(o))
+	st := s.thr.onces[key]
+	if st == nil {
+		st = &onceState{}
+		s.thr.onces[key] = st
+	}
+	for spins := 0; ; spins++ {
+		if st.done {
+			if _, vc := s.curVC(); vc != nil && st.rel != nil {
+				join(vc, st.rel)
+			}
+			o.Do(func() {}) // keep the real Once consistent for code that runs after the simulation
+			return
+		}
+		if !st.running {
+			break
+		}
+		if spins > 100000 {
+			panic(&Infra{"simulated sync.Once never completed"})
+		}
+		s.yield(site, yLock)
+	}
+	st.running = true
+	defer func() {
+		st.running = false
+		st.done = true
+		if tid, vc := s.curVC(); vc != nil {
+			st.rel = append([]uint64(nil), vc...)
+			vc[tid]++
+		}
+		o.Do(func() {})
+	}()
+	f()
+}
+
+// AccessCount is the number of shared-access / party yield points passed while
+// threads were running.
+func (s *Sim) AccessCount() uint64 {
+	if s.thr == nil {
+		return 0
+	}
+	return s.thr.acount
+}
+
+// ThreadMode is the preemption mode of the last RunThreads.
+func (s *Sim) ThreadMode() int {
+	if s.thr == nil {
+		return -1
+	}
+	return s.thr.Mode
 }
